@@ -173,6 +173,40 @@ class NameLookupRewriteVisitor(NodeTransformerBase):
         finally:
             self.scopes.pop()
 
+    def _visit_comprehension(self, node: Any) -> ast.AST:
+        # The loop variables of a comprehension are local to it; they
+        # must not be looked up in (or stored to) the template context.
+        generators = node.generators
+
+        # The first iterable is evaluated in the enclosing scope.
+        generators[0].iter = self.visit(generators[0].iter)
+
+        scope = set(self.scopes[-1])
+        for generator in generators:
+            for target in ast.walk(generator.target):
+                if isinstance(target, ast.Name):
+                    scope.add(target.id)
+
+        self.scopes.append(scope)
+        try:
+            for index, generator in enumerate(generators):
+                if index > 0:
+                    generator.iter = self.visit(generator.iter)
+                generator.ifs = [self.visit(test) for test in generator.ifs]
+            if isinstance(node, ast.DictComp):
+                node.key = self.visit(node.key)
+                node.value = self.visit(node.value)
+            else:
+                node.elt = self.visit(node.elt)
+            return node  # type: ignore[no-any-return]
+        finally:
+            self.scopes.pop()
+
+    visit_ListComp = _visit_comprehension
+    visit_SetComp = _visit_comprehension
+    visit_DictComp = _visit_comprehension
+    visit_GeneratorExp = _visit_comprehension
+
 
 class ItemLookupOnAttributeErrorVisitor(NodeTransformerBase):
     def visit_Attribute(self, node: ast.Attribute) -> ast.AST:
